@@ -340,13 +340,14 @@ class Expander:
         path = _target_path(loop.target, name)
         base = it
         pos: object = path
+        rest: Tuple[int, ...] = ()
         if isinstance(it, ast.Call) and isinstance(it.func, ast.Name) and it.func.id == "enumerate" and it.args and path:
             if path[0] == 0:
-                base, pos = it.args[0], ("idx",) + tuple(path[1:])
+                base, pos = it.args[0], ("idx",)
             else:
-                base, pos = it.args[0], ("elem",) + tuple(path[1:])
+                base, pos, rest = it.args[0], ("elem",), tuple(path[1:])
         elif isinstance(it, ast.Call) and isinstance(it.func, ast.Name) and it.func.id == "zip" and path and path[0] < len(it.args):
-            base, pos = it.args[path[0]], ("elem",) + tuple(path[1:])
+            base, pos, rest = it.args[path[0]], ("elem",), tuple(path[1:])
         elif isinstance(it, ast.Call) and isinstance(it.func, ast.Name) and it.func.id == "range":
             pos = ("idx",)
             # range(len(S)), range(0, len(S)), range(S.shape[0]): positions of S,
@@ -366,10 +367,15 @@ class Expander:
                     k = self._loop_ordinal(fi, loop, base)
                     return ast.Call(func=ast.Name(id="__it__", ctx=ast.Load()), args=[clone_ast(base), ast.Constant(str(pos)), ast.Constant(k)], keywords=[])
         else:
-            pos = ("elem",) + tuple(path)
+            pos, rest = ("elem",), tuple(path)
         xb = self._x(base, fi, loop, bindings, depth + 1, seen)
         k = self._loop_ordinal(fi, loop, xb)
-        return ast.Call(func=ast.Name(id="__it__", ctx=ast.Load()), args=[xb, ast.Constant(str(pos)), ast.Constant(k)], keywords=[])
+        # components of an unpacked element are subscripts of the element: the same
+        # term as `e[1]` after `for e in ...`
+        term = ast.Call(func=ast.Name(id="__it__", ctx=ast.Load()), args=[xb, ast.Constant(str(pos)), ast.Constant(k)], keywords=[])
+        for i_ in rest:
+            term = ast.Subscript(value=term, slice=ast.Constant(i_), ctx=ast.Load())
+        return term
 
     def _loop_ordinal(self, fi, loop, xb) -> int:
         loops = self._loops.get(fi.qualname)
